@@ -526,8 +526,16 @@ class Vt100_Output(Output):
             "linux",
             "eterm-color",
         ):  # Not supported by the Linux console.
+            # Remove all control characters (C0, DEL and C1): besides ESC and
+            # BEL, an 8-bit string terminator (0x9c) would end the title
+            # sequence as well, and what follows would be interpreted by the
+            # terminal.
             self.write_raw(
-                "\x1b]2;{}\x07".format(title.replace("\x1b", "").replace("\x07", ""))
+                "\x1b]2;{}\x07".format(
+                    "".join(
+                        c for c in title if not (c < " " or "\x7f" <= c <= "\x9f")
+                    )
+                )
             )
 
     def clear_title(self) -> None:
